@@ -294,3 +294,24 @@ func watchdog() {
 		}
 	}
 }
+
+// FireAll makes every armed virtual timer fire once (used after Close to show that no
+// background activity is left). Returns the number of timers fired.
+func FireAll() int {
+	mu.Lock()
+	defer mu.Unlock()
+	n := 0
+	for _, tm := range timers {
+		if tm.armed {
+			select {
+			case tm.ch <- time.Now():
+				n++
+			default:
+			}
+			if !tm.ticker {
+				tm.armed = false
+			}
+		}
+	}
+	return n
+}
